@@ -10,7 +10,9 @@ Property oracle, on the real code's output only:
       VBI_EVENT_CAPTION for that page in between;
   (c) cursor invariants on every `st` line (1 <= col1 <= col <= 33, row <= 14, window inside the page,
       `line` = row * 34 cells into the hidden page);
-  (d) pairs of one field never change the four channels of the other field.
+  (d) pairs of one field never change the four channels of the other field;
+  (e) a page fetched again with no pair / channel switch in between reports an empty dirty region (y0 > y1, roll 0):
+      vbi_fetch_cc_page hands the pending changes over exactly once.
 """
 import json, os, re, subprocess, sys
 sys.path.insert(0, os.path.join(os.path.dirname(os.path.abspath(__file__)), "..", "lib"))
@@ -270,6 +272,134 @@ def script_text(rng, tx, nlines):
         tx.cut()
 
 
+SPECIALS = [0, 1, 2, 3, 4, 5, 6, 7, 8, 10, 11, 12, 13, 14, 15]
+
+
+def fill_row(rng, tx, col):
+    """characters from column `col` up to and including column 32 (the cursor is then parked behind the last column), now and
+    then a few more (each replaces the character in column 32); mostly letters, a space here and there, never at the end"""
+    n = 33 - col
+    if rng.random() < 0.3:
+        n += rng.randrange(1, 4)
+    t = [0x20 if rng.random() < 0.12 else (rng.choice(WORDCH) if rng.random() < 0.3 else rng.randrange(0x41, 0x5B)) for _ in range(n)]
+    t[-1] = rng.randrange(0x30, 0x3A)          # a digit in column 32: easy to spot in a replay
+    if t[0] == 0x20:
+        t[0] = 0x41
+    tx.text(t)
+
+
+def full_row_edge(rng, tx, istext):
+    """with the cursor parked at the last column of a FULL row: Transparent Space, Tab Offset, Backspace, special characters,
+    mid-row codes, more characters (15.119: printing characters replace column 32, the Transparent Space erases it, BS erases
+    it and moves to column 32, a Tab Offset does nothing)"""
+    kinds = ["ts", "ts", "ts", "tab", "bs", "spec", "chars", "tsx"]
+    if not istext:
+        kinds.append("midrow")
+    for _ in range(rng.randrange(1, 4)):
+        k = rng.choice(kinds)
+        if k == "ts":
+            tx.special(9)
+        elif k == "tsx":
+            # Transparent Space, then column 32 is written again (the cursor must still be parked)
+            tx.special(9)
+            if rng.random() < 0.5:
+                tx.text([rng.randrange(0x41, 0x5B)])
+            else:
+                tx.special(rng.choice(SPECIALS))
+        elif k == "tab":
+            tx.tab(rng.randrange(1, 4))
+        elif k == "bs":
+            n = rng.randrange(1, 4)
+            for _ in range(n):
+                tx.dbl = True; tx.misc("BS"); tx.dbl = None
+            r = rng.random()
+            if r < 0.4:
+                # the erased cells are typed again, up to column 32 or one short of it
+                tx.text([rng.randrange(0x41, 0x5B) for _ in range(rng.randrange(max(1, n - 1), n + 1))])
+            elif r < 0.6:
+                tx.special(9)
+            elif r < 0.7:
+                tx.tab(rng.randrange(1, 4))
+            elif r < 0.85:
+                # Tab Offset back to (or against) the right margin, then one more Backspace: shows where the tab left the cursor
+                tx.tab(rng.randrange(1, 4))
+                tx.dbl = True; tx.misc("BS"); tx.dbl = None
+        elif k == "spec":
+            tx.special(rng.choice(SPECIALS))
+        elif k == "chars":
+            tx.text([rng.randrange(0x41, 0x5B) for _ in range(rng.randrange(1, 3))])
+        elif k == "midrow":
+            tx.midrow(rng.randrange(7), rng.randrange(2))
+
+
+def script_full_row(rng, tx, mode):
+    """rows filled to column 32 followed by Transparent Space / Tab Offset / BS / special characters / mid-row codes, in all
+    four modes (seed C08-g: the Transparent Space with the cursor parked at the last column must erase column 32); the row is
+    made visible by EOC (pop-on), DER / PAC to another row / two idle NUL pairs (paint-on), CR / DER (roll-up, text)"""
+    def start(row=None):
+        col = 1
+        if row is not None:
+            if rng.random() < 0.5:
+                i = rng.choice([0, 0, 4, 8, 16, 24, 28])
+                tx.pac(row, indent=i, underline=rng.randrange(2) if rng.random() < 0.2 else 0)
+                col = 1 + i
+            else:
+                tx.pac(row, colour=rng.randrange(7), underline=rng.randrange(2) if rng.random() < 0.2 else 0)
+        if rng.random() < 0.2:
+            n = rng.randrange(1, 4); tx.tab(n); col += n
+        return col
+    if mode == "pop":
+        for _ in range(rng.randrange(1, 3)):
+            tx.misc("RCL"); tx.misc("ENM")
+            for r in rng.sample(range(15), rng.randrange(1, 4)):
+                fill_row(rng, tx, start(r))
+                full_row_edge(rng, tx, False)
+            tx.misc("EOC"); tx.fetch()
+            if rng.random() < 0.3:
+                tx.fetch()
+            tx.cut()
+    elif mode == "paint":
+        tx.misc("RDC"); tx.misc("EDM"); tx.fetch(); tx.cut()
+        rows = rng.sample(range(15), rng.randrange(2, 5))
+        for j, r in enumerate(rows[:-1]):
+            tx.misc("RDC")
+            fill_row(rng, tx, start(r))
+            full_row_edge(rng, tx, False)
+            v = rng.choice(["der", "pac", "nul"] if tx.f == 0 else ["der", "pac"])
+            if v == "der":
+                tx.misc("DER")
+            elif v == "pac":
+                tx.pac(rows[j + 1], indent=0)
+            else:
+                tx.cur.append("cc 0 8080"); tx.cur.append("cc 0 8080")
+            tx.fetch(); tx.cut()
+    elif mode == "roll":
+        n = rng.randrange(2, 5)
+        tx.misc("RU%d" % n)
+        base = 14
+        if rng.random() < 0.5:
+            base = rng.choice([3, 7, 13, 14, rng.randrange(3, 15)])
+            tx.pac(base, indent=0)
+        tx.fetch(); tx.cut()
+        for _ in range(rng.randrange(1, 5)):
+            tx.misc("RU%d" % n)
+            fill_row(rng, tx, start(base if rng.random() < 0.4 else None))
+            full_row_edge(rng, tx, False)
+            if rng.random() < 0.3:
+                tx.misc("DER"); tx.fetch()
+            tx.misc("CR"); tx.fetch(); tx.cut()
+    else:
+        page = tx.pgno(True)
+        tx.misc("TR"); tx.cut()
+        for _ in range(rng.randrange(1, 18)):
+            tx.misc("RTD")
+            fill_row(rng, tx, start(None))
+            full_row_edge(rng, tx, True)
+            if rng.random() < 0.3:
+                tx.misc("DER"); tx.fetch(page)
+            tx.misc("CR"); tx.fetch(page); tx.cut()
+
+
 class RowView:
     """the sender's own view of the rows it has written (which columns hold a character), so that
     destructive-vs-non-destructive cursor moves (PAC indent, tab offset) are only sent over empty cells"""
@@ -516,6 +646,8 @@ def field_script(rng, f, services, force_pac=False, xds=False):
             script_text_edit(rng, tx, rng.randrange(1, 18), False)
         elif kind == "textedm":
             script_text_edit(rng, tx, rng.randrange(1, 6), True)
+        elif kind.startswith("full-"):
+            script_full_row(rng, tx, kind[5:])
         else:
             script_text(rng, tx, rng.randrange(1, 20))
         tx.cut()
@@ -585,7 +717,8 @@ class C08(verif.Spec):
     prop = "C08"
     comp = "cc"
     lean_modules = ["ZvbiModel.Props.C08", "ZvbiModel.Props.C08Paint", "ZvbiModel.Props.C08Fields", "ZvbiModel.Props.C08Lang",
-                    "ZvbiModel.Props.C08Special"]
+                    "ZvbiModel.Props.C08Special", "ZvbiModel.Props.C08Edge", "ZvbiModel.Props.C08Parity",
+                    "ZvbiModel.Props.C08Fetch"]
     harness = "cc_harness"
     harness_link_lib = True
     timeout_per_case = 5.0
@@ -593,8 +726,9 @@ class C08(verif.Spec):
                     "byte pairs on field 1 / CC1, fetched page = reference page at every visibility point, by induction over the script "
                     "grammar; for every caption channel at channel level) and checked differentially on the real code for those scripts plus "
                     "mid-row codes, tabs, BS/DER, text mode, all four channels and both fields; corrections inside a row (BS, DER, TO, EDM) in paint-on / "
-                    "roll-up / text mode are proved (refines_Eia608_edits_partial) and checked up to solid spaces, which 15.119 (d)(1) leaves to the "
-                    "decoder; the unrestricted refinement statement is false "
+                    "roll-up / text mode are proved (refines_Eia608_edits_partial; with Transparent Space at every cursor position incl. the parked "
+                    "cursor and mid-row codes: refines_Eia608_edits_ts_partial) and checked up to solid spaces, which 15.119 (d)(1) leaves to the "
+                    "decoder; the byte-level rules of vbi_decode_caption (parity errors, NUL bytes, 0x01..0x0F) are proved on the model for all states (C08Parity); the unrestricted refinement statement is false "
                     "(F46, proved counterexample), the unrestricted event statement is false without the two F45 repairs and proved with them; "
                     "special characters inside pop-on / roll-up / paint-on scripts are proved at channel level (refines_Eia608_scripts_*_special), not at "
                     "byte level; the two fields are separated at trace level for the per-field curr_chan (fields_independent_trace / _full / _fetch); "
@@ -688,6 +822,11 @@ class C08(verif.Spec):
             if rng.random() < 0.4:
                 b = merge_fields(rng, field_script(rng, 0, [(sv[0][0], sv[0][1])]), b)
             add(b + END_DUMP, "xds-gate")
+        # 3e. rows filled to column 32, then Transparent Space / Tab Offset / BS / special characters / mid-row codes with the
+        #     cursor parked at the last column, in pop-on, paint-on, roll-up and text mode (seed C08-g)
+        for n in range(80 * N):
+            f, k = rng.randrange(2), rng.randrange(2)
+            add(LEN + field_script(rng, f, [(k, "full-" + ["pop", "paint", "roll", "text"][n % 4])]) + END_DUMP, "wf-fullrow")
         # 4. both fields, different channel bit or class: finding F18 expected
         for _ in range(20 * N):
             k = rng.randrange(2)
@@ -755,6 +894,22 @@ class C08(verif.Spec):
                     c.append("cc %d %02x%02x" % (f, par(t[0]), par(t[1])))
                 elif r < 0.86:
                     c.append("cc %d %02x%02x" % (f, rng.randrange(256), rng.randrange(256)))
+                elif r < 0.875:
+                    # byte level: a control first byte with the NUL filler 0x80 (good parity, value 0) or a parity error as second
+                    # byte; a parity error in the first byte with a good / bad second byte (mutants of the parity tests)
+                    a, b = par(0x10 | rng.randrange(16)), par(rng.choice(list(MISC.values()) + [0x39, 0x41, 0x20]))
+                    q = rng.randrange(4)
+                    if q == 0:
+                        b = 0x80
+                    elif q == 1:
+                        b ^= 0x80
+                    elif q == 2:
+                        a ^= 0x80
+                    else:
+                        a, b = par(rng.randrange(0x20, 0x80)) ^ 0x80, par(rng.randrange(0x20, 0x80)) ^ (0x80 * rng.randrange(2))
+                    c.append("cc %d %02x%02x" % (f, a, b))
+                    if rng.random() < 0.5:
+                        c.append("fetch %d" % rng.randrange(1, 9))
                 elif r < 0.89:
                     c.append("cc 0 8080")
                 elif r < 0.91:
@@ -918,6 +1073,10 @@ class C08(verif.Spec):
         w = self.event_on_change(case, out)
         if w:
             return w
+        # (e) the dirty region is handed over once
+        w = self.dirty_once(case, out)
+        if w:
+            return w
         # (a) refinement to Eia608 at the visibility points
         if exp is not None and tag and tag not in NOREF:
             if len(exp) != len(out):
@@ -1012,6 +1171,29 @@ class C08(verif.Spec):
                 if prev[p] != text and evs[p] == 0:
                     return "event_on_change: page %d changed without a caption event%s" % (p, self.erase_pattern(since[p], ((p - 1) >> 1) & 1))
                 prev[p], evs[p], since[p] = text, 0, []
+        return None
+
+    @staticmethod
+    def dirty_once(case, out):
+        """vbi_fetch_cc_page resets the dirty fields of the page it copied (y0 = ROWS, y1 = -1, roll = 0): a second fetch of the
+        same page, with nothing decoded in between, must report that nothing is pending"""
+        fetched = set()
+        for op, o in zip(case, out):
+            t = op.split()
+            if not t:
+                continue
+            if t[0] in ("cc", "chsw"):
+                fetched.clear()
+            elif t[0] == "fetch" and len(t) == 2 and o.startswith("ok d="):
+                d = o.split(" ", 2)[1][2:].split(",")
+                if t[1] in fetched:
+                    try:
+                        y0, y1, roll = (int(x) for x in d)
+                    except ValueError:
+                        return "dirty region unparsable: " + o[:40]
+                    if y0 <= y1 or roll != 0:
+                        return "dirty_once: page %s fetched twice with nothing decoded in between still reports pending changes (d=%s)" % (t[1], ",".join(d))
+                fetched.add(t[1])
         return None
 
     @staticmethod
